@@ -243,11 +243,28 @@ def _namedmonth(env, ts, m, res):
 
 @spec("ruleYear")
 def _year(env, ts, m, res):
+    """four digits: that year.  Two digits: the documented window of the code comment ("any two
+    digit year between 0 and yy+10 is interpreted to be within the century of the reference year,
+    anything above maps to the previous century")"""
     y = g_int(m, "year")
     ry = v(res, "year")
+    cc, yy = Div(ts.year, 100), Mod(ts.year, 100)
     return [("year-as-written", ["C05"], And(kind(res) == "Time", only(res, "year"),
                                              If(y >= 100, Eq(ry, y),
-                                                And(Eq(Mod(ry, 100), y), ry > ts.year - 100, ry < ts.year + 10))))]
+                                                Eq(ry, If(y < yy + 10, cc * 100 + y, (cc - 1) * 100 + y)))))]
+
+
+POD_NAMES = ["first", "last", "earlymorning", "lateevening", "morning", "forenoon", "afternoon", "noon", "evening", "night"]
+
+
+@spec("rulePOD")
+def _pod(env, ts, m, res):
+    names = group_names(m)
+    ok = kind(res) == "Time"
+    return [("part-of-day-name", ["C04", "C06", "C19"],
+             And(ok, only(res, "POD") if ok else False,
+                 And(*[Implies(g_truthy(m, n), field_is(res, "POD", n)) for n in POD_NAMES if n in names]) if ok else False,
+                 all(n in names for n in POD_NAMES)))]
 
 
 def _month_day(mo, day, res):
